@@ -132,6 +132,25 @@ CLAIMED = {
                 "coverage is lexical + call-site based.",
         "technique": "lock-coverage analysis, CFG dominance, rule-template match",
     },
+    "C06": {
+        "text": "Decides, by abstract interpretation of the Linux parsers into "
+                "provenance terms (file template / cut position / split / column), "
+                "that every parser of the `pid (comm) ...` record cuts at the LAST ')', "
+                "that each public field (cpu_times, ppid, status, terminal, "
+                "create_time, cpu_num, threads, ppid_map) reads the proc(5) column "
+                "assigned to it, that tick counters are divided by CLOCK_TICKS exactly "
+                "once and create_time adds seconds to seconds (unit analysis), that the "
+                "state-letter table covers the kernel's letters with the documented "
+                "constants, and - by static analysis of the regex literals (re._parser: "
+                "anchoring, minimum width vs. TASK_COMM_LEN) - that no status-file regex "
+                "can match inside the Name: line. Byte-level decoding of names is not "
+                "decided.",
+        "note": "Trusted: oracle tables transcribed from proc(5) / fs/proc/array.c "
+                "(sa/oracles/linux.py); the interpreter's supported subset (fails closed "
+                "with ANALYSIS-ERROR outside it); summaries of _common I/O helpers.",
+        "technique": "abstract interpretation (provenance terms, units), regex-literal "
+                     "static analysis, table agreement",
+    },
 }
 
 NOT_APPLICABLE = {}
